@@ -91,6 +91,10 @@ def templates():
             body += ["print(a + b)"]
         text = DECLS + "start :: fn do\n    " + "\n    ".join(body) + "\nend\n"
         out.append({"name": "laws_" + name, "role": "structural-compare-order-arith(%s)" % name, "text": text, "dom": dom})
+        if "H1" in val:
+            # the same laws with leaves of both signs (floor division, unary minus and the order of negative components)
+            out.append({"name": "laws_signed_" + name, "role": "structural-compare-order-arith(%s)" % name, "text": text,
+                        "dom": {k: (-2, 2) for k in dom}})
     # mixed: equality between values built differently (literal vs computed), lists grown by push
     out.append({"name": "laws_built_differently", "role": "structural-equality(independent-construction)", "dom": {"a1": (0, 2), "a2": (0, 2)}, "text": DECLS + '''
 mk :: fn a: int, b: int -> (int, int) do ret (a, b) end
